@@ -62,7 +62,7 @@ def observe(lib, cases):
                 finally:
                     hh.hooks = saved
             h.hooks = {k: nested for k in ('cell:post', 'range:post', 'var:post', 'fn:post')}
-        o = h.parse(text)
+        o = h.parse(text, again=len(obs) % 4 == 3)
         o.update({'id': len(obs) + 1, 'ast': c['ast'], 'env': c['env'], 'formula': text, 'nest': bool(c.get('nest')),
                   'checks': ['events', 'calls'] if array_meets_array(c['ast'], c['env']) else ['value', 'events', 'calls']})
         obs.append(o)
